@@ -1,6 +1,6 @@
 #!/bin/sh
 # tools/mut.sh <patch.diff> <prop> [more check args]: run a check against a scratch copy of /repo with the patch applied
-P="$1"; shift
+P="$(readlink -f "$1")"; shift
 D=$(mktemp -d /tmp/mutXXXXXX)
 rsync -a --exclude .git --exclude __pycache__ /repo/ "$D/"
 (cd "$D" && patch -p1 -s < "$P") || { echo "PATCH FAILED"; rm -rf "$D"; exit 9; }
